@@ -1,13 +1,16 @@
 //! rxsim - deterministic simulation with fault injection for another-rxrust.
 //! See /verif/DESIGN.md. Invoked through /verif/bin/check.
 
+mod c01;
 mod c08;
 mod c09;
 mod c12;
 mod c18;
 mod common;
 mod json;
+mod pipe;
 mod rec;
+mod seq;
 mod thr_ops;
 mod timed;
 mod val;
@@ -15,12 +18,25 @@ mod val;
 use common::*;
 
 fn all_families() -> Vec<Box<dyn Family>> {
-  vec![Box::new(c08::C08), Box::new(c18::C18), Box::new(c09::C09), Box::new(c12::C12), Box::new(thr_ops::C19Ops), Box::new(thr_ops::C19Subjects), Box::new(thr_ops::C11), Box::new(timed::C16), Box::new(timed::C15)]
+  vec![Box::new(c08::C08), Box::new(c18::C18), Box::new(c09::C09), Box::new(c12::C12), Box::new(thr_ops::C19Ops), Box::new(thr_ops::C19Subjects), Box::new(thr_ops::C11), Box::new(timed::C16), Box::new(timed::C15), Box::new(c01::C01)]
 }
 
 fn spec_for(prop: &str) -> Option<CheckSpec> {
   let threaded_rule = "one case = (generated workload, seeded schedule and fault decisions); distinct = distinct (workload hash, schedule trace hash, recorded history hash) triples; non-trivial = the run had at least one context switch between tasks or at least one injected fault";
+  let seq_rule = "one case = (generated pipeline AST, source scripts incl. injected faults, step/cancel order); distinct = distinct (workload hash, recorded history hash) pairs; non-trivial = at least one event was recorded";
   match prop {
+    "C01" => Some(CheckSpec {
+      property: "C01",
+      level: "exploration",
+      rule: seq_rule.to_string(),
+      assumptions: vec![
+        "runs that end blocked (self-deadlock, livelock, panic) are not judged here but by C07 (DESIGN.md 4.6)".into(),
+        "single driver task: the sequential interleavings of several hot sources' scripts are the generated step order".into(),
+      ],
+      families: vec![FamilySpec { fam: Box::new(c01::C01), quick_runs: 400_000, thorough_runs: 6_000_000 }],
+      quick_cap_s: 60,
+      thorough_cap_s: 900,
+    }),
     "C08" => Some(CheckSpec {
       property: "C08",
       level: "exploration",
